@@ -222,7 +222,7 @@ def read_itp(path):
     lines = Path(path).read_text().splitlines()
     for line in lines:
         if line.startswith(";"):
-            m = re.search(r"doi[:=/ ]*\S*10\.1000/(\w+)", line) or re.search(r"Paper (\w+)", line)
+            m = re.search(r"10\.1000/(\w+)", line)
             if m:
                 cites.append(m.group(1))
             continue
